@@ -24,6 +24,10 @@ var repoDir = "/repo"
 
 var verifDir = "/verif"
 
+// stopOnViolation (env SYMGO_STOP_ON_VIOLATION=1) ends the exploration at the first violation of a
+// non-twin entry. Development aid for trying breaking changes; registered commands never set it.
+var stopOnViolation = os.Getenv("SYMGO_STOP_ON_VIOLATION") != ""
+
 // ---- check specification ------------------------------------------------------------------------
 
 type EntrySpec struct {
@@ -401,6 +405,9 @@ func cmdCheck(args []string) int {
 		for _, m := range r.inconcl {
 			inconclusive = append(inconclusive, fmt.Sprintf("%s(%s): %s", in.entry.Func, paramString(in.params), m))
 		}
+		if stopOnViolation && !in.entry.MustFail && len(r.violations) > 0 {
+			break
+		}
 	}
 	return report(&spec, *tier, seed, eng, results, inconclusive, *noSelf, *noEvidence, t0, *verbose)
 }
@@ -638,6 +645,9 @@ func explore(eng0 *Engine, cfg Config, in instance, selfMax int, smtlog string) 
 						violPerClause[v.Clause]++
 						res.violations = append(res.violations, v)
 					}
+				}
+				if stopOnViolation && !in.entry.MustFail && len(res.violations) > 0 {
+					stopped = true // development aid (mutation runs): the verdict is VIOLATION anyway
 				}
 				if pr.Witness != nil {
 					res.witnesses = append(res.witnesses, pr.Witness)
